@@ -23,6 +23,7 @@ type Env struct {
 	inQuant int
 	pkg     string // package path for name resolution
 	recSelf *specFunInfo
+	rangeIter *ssa.Range
 }
 
 func (e *Env) clone() *Env {
@@ -120,6 +121,13 @@ func (f *FnVC) exitEnv(res []TV, st *State) *Env {
 
 func (f *FnVC) loopEnv(li *loopInfo, st *State, subst map[ssa.Value]TV) *Env {
 	env := f.baseEnv()
+	for _, in := range li.head.Instrs {
+		if nx, ok := in.(*ssa.Next); ok {
+			if r, ok := nx.Iter.(*ssa.Range); ok {
+				env.rangeIter = r
+			}
+		}
+	}
 	env.st = st
 	env.old = f.root
 	env.oldVars = f.paramTV
@@ -517,6 +525,9 @@ func (f *FnVC) trField(env *Env, x SField) TV {
 		tv := f.tv(t, fl.Ty)
 		if env.inQuant == 0 {
 			f.typeFacts(tv, true)
+			if env.st.kind != stParam {
+				f.allocatedFactAt(tv, f.nextrefOfHeapTerm(env.st.get(h), env.st.get("$nextref")))
+			}
 		}
 		return tv
 	case *types.Struct:
@@ -757,6 +768,33 @@ func (f *FnVC) trCall(env *Env, x SCall) TV {
 		}
 		f.declFun("closure_fn", []string{"Int"}, "Int")
 		return TV{sEq(sApp("closure_fn", a.T), f.fnTag(name.Val+"$bound")), boolTy, "Bool"}
+	case "visited":
+		// visited(k): has the enclosing map iteration already produced key k?
+		if env.rangeIter == nil {
+			sfail("visited() is only available in invariants of a range-over-map loop")
+		}
+		a := arg(0)
+		mt := env.rangeIter.X.Type().Underlying().(*types.Map)
+		return TV{sSel(env.st.get(f.visitedHeap(env.rangeIter, mt)), a.T), boolTy, "Bool"}
+	case "addrOfField":
+		// addrOfField(p, f): address of field f of the struct p points to
+		a := arg(0)
+		fid, ok := x.Args[1].(SIdent)
+		pt, ok2 := a.Ty.Underlying().(*types.Pointer)
+		if !ok || !ok2 {
+			sfail("addrOfField(pointer, fieldname)")
+		}
+		dt := f.sorts.dtOf(pt.Elem())
+		if dt == nil {
+			sfail("addrOfField: not a struct pointer")
+		}
+		for _, fl := range dt.Fields {
+			if fl.Name == fid.Name {
+				fn := f.declFun("fptr_"+dt.Name[2:]+"_"+sanitize(fl.Name), []string{"Int"}, "Int")
+				return f.tv(sApp(fn, a.T), types.NewPointer(fl.Ty))
+			}
+		}
+		sfail("addrOfField: no field %s", fid.Name)
 	case "addrOf":
 		// address of a package-level variable
 		id2, ok := x.Args[0].(SIdent)
